@@ -6,9 +6,49 @@ open OPM OPM.Wire OPM.EngineId
 
 /-- ops:  `id <computer> <uod>`  →  encoded id
           `idold <computer> <uod>` → encoded id (pre-fix format; used by the self-test)
-          `reg <secretOk> <versionOk> <ignore> <computer> <uod> <connected ids ;-separated>` -/
-def step (_ : Unit) (line : String) : Unit × String :=
+          `reg <secretOk> <versionOk> <ignore> <computer> <uod> <connected ids ;-separated>`
+    websocket-table histories (state = `Conns`, reset by `RESET`):
+          `regs <secretOk> <versionOk> <ignore> <computer> <uod>`   registration against the table
+          `conn <channel> <id | N>`     a websocket came up and reported its id (N = none)
+          `disc <channel>`
+    each answered with the event's outcome and the table: `<outcome>|<id>:<ch>;…` -/
+def showReply : RegReply → String
+  | .secretMismatch => "secret"
+  | .alreadyConnected id => "refused\t" ++ encodeStr id
+  | .versionMismatch id => "refused\t" ++ encodeStr id
+  | .ok id => "ok\t" ++ encodeStr id
+
+def showTable (s : Conns) : String :=
+  "|" ++ ";".intercalate (s.map.map (fun e => encodeStr e.1 ++ ":" ++ toString e.2))
+
+def showOut : COut → String
+  | .reg r => showReply r
+  | .connected id => "connected\t" ++ encodeStr id
+  | .closed => "closed"
+  | .disconnected id => "disconnected\t" ++ encodeStr id
+  | .unknown => "unknown"
+
+def hstep (s : Conns) (op : COp) : Conns × String :=
+  let (s', o) := cstep s op
+  (s', showOut o ++ showTable s')
+
+def step (st : Conns) (line : String) : Conns × String :=
   match fields line with
+  | ["regs", s, v, i, c, u] =>
+    match parseBool s, parseBool v, parseBool i, decodeStr c, decodeStr u with
+    | some s, some v, some i, some c, some u => hstep st (.register ⟨c, u, s, v, i⟩)
+    | _, _, _, _, _ => (st, "bad-op")
+  | ["conn", ch, id] =>
+    match ch.toNat?, (if id = "N" then some none else (decodeStr id).map some) with
+    | some ch, some id => hstep st (.connect ch id)
+    | _, _ => (st, "bad-op")
+  | ["disc", ch] =>
+    match ch.toNat? with
+    | some ch => hstep st (.disconnect ch)
+    | none => (st, "bad-op")
+  | l => let (_, o) := stepPure l; (st, o)
+where stepPure (l : List String) : Unit × String :=
+  match l with
   | ["id", c, u] =>
     match decodeStr c, decodeStr u with
     | some c, some u => ((), encodeStr (engineId c u))
@@ -22,14 +62,10 @@ def step (_ : Unit) (line : String) : Unit × String :=
           ((conn.splitOn ";").filter (· ≠ "")).mapM decodeStr with
     | some s, some v, some i, some c, some u, some conn =>
       let r := register conn ⟨c, u, s, v, i⟩
-      ((), match r with
-        | .secretMismatch => "secret"
-        | .alreadyConnected id => "refused\t" ++ encodeStr id
-        | .versionMismatch id => "refused\t" ++ encodeStr id
-        | .ok id => "ok\t" ++ encodeStr id)
+      ((), showReply r)
     | _, _, _, _, _, _ => ((), "bad-op")
   | _ => ((), "bad-op")
 
 end Driver.EngineId
 
-def main : IO Unit := Driver.runLoop () Driver.EngineId.step
+def main : IO Unit := Driver.runLoop ({} : OPM.EngineId.Conns) Driver.EngineId.step
